@@ -55,6 +55,21 @@ func c13Case(ch choose.Chooser, rec *ev.Recorder, cfg walkCfg) error {
 		crashed := ""
 		switch plan {
 		case "crash-before-submit", "crash-after-submit":
+			// optionally the certificate that will be in flight at the crash is the 2nd or 3rd attempt at its height: the
+			// Agglayer rejects the earlier attempts first
+			for e, nErr := 0, choose.Pick(ch, []int{0, 0, 1, 2}, "rejectedAttemptsBeforeCrash"); e < nErr; e++ {
+				for i := 0; i < 6 && r.m.undecided() == nil; i++ {
+					r.trace = append(r.trace, doAction(ch, r, 0))
+					r.node.step(true)
+				}
+				if r.m.undecided() == nil {
+					break
+				}
+				r.trace = append(r.trace, doAction(ch, r, 5))
+				r.node.step(false)
+				r.trace = append(r.trace, "status")
+				rec.Class("rejected_attempts_before_crash")
+			}
 			r.m.mu.Lock()
 			r.m.crashAt = strings.TrimPrefix(plan, "crash-")
 			r.m.mu.Unlock()
@@ -119,8 +134,14 @@ func c13Case(ch choose.Chooser, rec *ev.Recorder, cfg walkCfg) error {
 			return fmt.Errorf("after %s and restart, start-up reconciliation keeps refusing although the node's records do not contradict the Agglayer's: %v\n  [signature: %s]\n  history: %s", plan, serr, sig, r.key())
 		}
 		r.trace = append(r.trace, "RESTARTED")
-		// continue: new blocks, ticks, Agglayer decisions
+		// continue: new blocks, ticks, Agglayer decisions (sometimes starting with one more rejection and its retry)
 		before := len(r.m.certs)
+		if ch.Int(0, 2, "rejectionAfterRestart") == 0 && r.m.undecided() != nil {
+			r.trace = append(r.trace, doAction(ch, r, 5))
+			r.node.step(false)
+			r.node.step(true)
+			r.trace = append(r.trace, "status", "epoch")
+		}
 		for i, n := 0, ch.Int(2, 10, "after"); i < n; i++ {
 			r.trace = append(r.trace, doAction(ch, r, choose.Pick(ch, []int{0, 0, 1, 1, 2, 3, 4, 4, 5}, "action")))
 		}
@@ -333,7 +354,7 @@ func TestC13(t *testing.T) {
 		cfg := walkCfg{node: genNodeCfg(ch), steps: rapid.IntRange(0, 20).Draw(rt, "prefixSteps"),
 			weights: []int{0, 0, 0, 1, 1, 1, 2, 3, 4, 4, 5, 7}}
 		if err := c13Case(ch, rec, cfg); err != nil {
-			rt.Fatalf("%v", err)
+			fatal(rt, "%v", err)
 		}
 	})
 }
